@@ -505,6 +505,30 @@ pub fn run(ctx: &mut Ctx) {
             }
         }
     }
+    // ---- contradictory key authorisations, systematically: every ORDER of two or three wholly authorised namespaces
+    //      (the list is a Vec in the caller's order, not sorted) x every position of the doubly authorised one ----
+    {
+        let names = ["org.iso.18013.5.1.aamva", "org.iso.18013.5.1", "zz.last", "a.first"];
+        let mut lists: Vec<Vec<&str>> = vec![];
+        for a in 0..names.len() { for b in 0..names.len() { if a != b {
+            lists.push(vec![names[a], names[b]]);
+            for c in 0..names.len() { if c != a && c != b { lists.push(vec![names[a], names[b], names[c]]); } }
+        } } }
+        let stride = if ctx.thorough { 1 } else { 3 };
+        let mut k = 0usize;
+        for l in lists.iter() {
+            for dup in l.iter() {
+                k += 1;
+                if k % stride != 0 { continue; }
+                let nss = rand_namespaces(&mut ctx.rng, false);
+                let mut els = BTreeMap::new();
+                els.insert(dup.to_string(), vec!["a".to_string()]);
+                if k % 2 == 0 { els.insert("m.unrelated".to_string(), vec!["b".to_string()]); }
+                let auth = Some(Auth { namespaces: Some(l.iter().map(|s| s.to_string()).collect()), elements: Some(els) });
+                one_issuance(ctx, &pki, "issue_refusal_contradiction", nss, auth, algs[k % 3], false, k % 2 == 0, false, false);
+            }
+        }
+    }
     // ---- refusal stream: empty maps, namespaces without elements, contradictory authorisations ----
     let n = ctx.budget(40, 800);
     for i in 0..n {
